@@ -51,6 +51,18 @@ CLAIMED = {
         note="Trusted: TLC, TraitSet.tla (cross-checked per case against builtin set), item concretisation. Known "
              "finding F15 (symmetric difference with coerced items) is a named deviation action; F2 fixed in /repo.",
         design="4/C07"),
+    "C15": dict(
+        technique=TLA + "TLC computes the complete bounded language of the documented grammar with parse trees and "
+                  "denotations (ObserveDSL.tla) and checks its well-formedness laws; every member is compiled by the real "
+                  "parser and the projected ObserverGraphs compared with the denotation; the complement of TLC's set among "
+                  "all token strings up to the bound must raise ValueError",
+        text="Exhaustive to 5 (quick) / 7 (thorough) tokens over a 10-token alphabet: every grammatical string x 3 "
+             "spellings compiled and compared with the specification's path set, recompiled, used in stacked @observe / "
+             "observe / removal by an equivalent spelling on real objects; every non-member string up to the bound plus "
+             "junk strings must raise ValueError.",
+        note="Trusted: TLC; names limited to two identifiers and one metadata name; whitespace variants are sampled "
+             "(seeded), not enumerated. Known findings F9a/F9b.",
+        design="4/C15"),
     "C17": dict(
         technique=TLA + "the _adapt priority-queue algorithm is model-checked against the declarative definition of "
                   "successful adapter chains for every configuration; every enumerated configuration and seeded larger "
